@@ -13,7 +13,7 @@ package scanner
 //@   ensures result.tokenPool != nil && result.positionPool != nil
 //@   ensures lexinv(result)
 //@   modifies nothing
-//@   props C09, C01, C06
+//@   props C09, C01, C06, C18
 
 // ---------------------------------------------------------------------------------------------
 // Helper contracts the generated Lex machine relies on (DESIGN Appendix E).
